@@ -333,6 +333,10 @@ def _lifting(chk):
 
 def run(chk):
     loader.install()
+    # the centre-manifold Hamiltonian handed out for a point is built from THAT point (registry obligation shared with C07)
+    from contracts import C07 as _c07
+    chk.under_contract("hiten.algorithms.types.services.hamiltonian:_HamiltonianPipelineService.get")
+    _c07._pipeline_registry(chk)
     chk.under_contract(SC + ":_CenterManifoldDynamicsService._cm_point_to_synodic_4d",
                        SC + ":_CenterManifoldDynamicsService.synodic_to_cm",
                        SC + ":_CenterManifoldDynamicsService._cm_point_to_synodic_from_section",
